@@ -1,7 +1,8 @@
 """C05 - a failed step is never hidden in the report: model/spec vs robsd-report -m <mode> -C <conf> <builddir>
 (DESIGN.md 7, C05; shares model, extraction and fixtures with C18 through rp_common)."""
-import json, os
-import common, rp_common
+import json, os, shutil, signal, subprocess, tempfile, time
+from concurrent.futures import ThreadPoolExecutor
+import common, rp_common, orch_env
 
 TRANSLATORS = ['t_report', 't_step', 't_interp', 't_shell']
 TRUSTED = ['modelled, not verified: open/read/stat/readdir as delivered by the kernel, vsnprintf ("%s" and "%.*s" stop at a NUL byte, '
@@ -13,14 +14,18 @@ TRUSTED = ['modelled, not verified: open/read/stat/readdir as delivered by the k
            'environment assumed for every case: <robsddir>/.running names the directory given on the command line (so ${builddir}/comment, '
            '/tags, /tmp are looked up there) or is absent; paths shorter than PATH_MAX; an unreadable file is produced as a missing file or '
            'as a directory (the checks run as uid 0); log lines never look like a section header ("> name" followed by "Exit: ") so that the '
-           'harness can cut the report into sections; step names and log names come from the step file and hold no NUL, comma or newline',
+           'harness can cut the report into sections (only to NAME the clause of a failed verdict: the verdict itself is spec_ok_bytes on exit status '
+           'and standard output, C05_bytes_oracle_accepts_model); step names and log names come from the step file and hold no NUL, comma or newline',
            'status theorem hypotheses (explicit in C05_status_ok_iff): skipped rows carry exit 0 (regress, canvas); sequential modes: '
            'every non-skipped row other than the last non-skipped one has exit 0 - that the orchestrator only produces such files is '
            'proved (C05_status_orchestrated: entry scripts, sequential and parallel loop under every schedule, crashes and resumed runs, on the '
            'same rows of the step file); the status oracle is applied to the generated files meeting the hypotheses, the correspondence to every '
            'generated file (the generator also produces files no orchestrator writes)',
-           'no report at all (exit 1, empty output) when a file of a listed row cannot be read is the specified behaviour (C05_report_main_silent): '
-           'outside the property for the orchestrator\'s own files (tee creates every log); counted in the input distribution']
+           'outside the property, by a predicate on the case (rp_common.outside_reason, argued there and in ReportSpec.v; C05_error_only_outside): a file '
+           'that is a directory, a missing lock file, a passing dpb row without packages.diff, a regress row without log name - no oracle judges '
+           'those cases, the correspondence with the model does.  A log that does NOT EXIST is inside (C05_never_hidden, D24)',
+           'end-to-end lane: the real canvas script under bash with the stand-ins of harness/orch_env.py (tools/orch/robsd-wait, probe step commands, '
+           'tools/shims) and, for the window between the in-flight record and tee\'s open, a tee on PATH that is never scheduled for one step']
 
 
 def stats(res, c, rc, rep):
@@ -50,8 +55,10 @@ def stats(res, c, rc, rep):
     else:
         hyp = all(all(x['skip'] == 1 for x in rows[i + 1:]) for i in failing)
     res.count('status_hypotheses=%s' % ('hold (oracle judges)' if hyp else 'violated (correspondence only)'))
-    if rc == 1 and failing and c.get('running', True) and c.get('step_present', True):
-        res.count('caveat: a step failed and a file of a listed row is missing: no report at all, as specified (C05_report_main_silent)')
+    if rp_common.d24_shape(c):
+        res.count('a failing row names a log that does not exist (D24 class)')
+    if rp_common.d25_shape(c):
+        res.count('failing cvs row of a regress invocation with src cvs logs (D25 class)')
     if any(r['skip'] == 1 for r in rows):
         res.count('has_skipped_row')
     if any(r['name'] == 'end' for r in rows):
@@ -59,6 +66,8 @@ def stats(res, c, rc, rep):
     for name, content in c['logs'].items():
         if content is None:
             res.count('log=missing')
+        elif content == 'U':
+            res.count('log=directory')
         else:
             b = bytes.fromhex(content)
             n = b.count(b'\n')
@@ -77,6 +86,10 @@ def stats(res, c, rc, rep):
             if b'====' in b or b'===>' in b:
                 res.count('log=regress-markers')
             res.count('log_lines=%s' % (n if n in (0, 1, 9, 10, 11) else 'other'))
+            if len(b) >= 65536:
+                res.count('log>=64KiB')
+    if len(rows) > 17:
+        res.count('rows>17')
     if rep is not None:
         res.count('sections=%s' % (len(rep['sections']) if len(rep['sections']) < 4 else '4+'))
 
@@ -93,18 +106,170 @@ def run_cases(ctx, cases, res):
     return res
 
 
+# ---------------------------------------------------------------- end-to-end lane: step files the orchestrator really wrote
+
+E2E_SCENARIOS = ['complete', 'seq-failure', 'parallel-failure', 'killed-in-flight', 'killed-before-tee', 'killed-before-tee-after-failure']
+
+
+def gen_e2e(rng, kind=None):
+    kind = kind or rng.choice(E2E_SCENARIOS)
+    n = rng.choice([2, 3, 4])
+    steps = [{'name': 's%d' % i, 'parallel': False} for i in range(1, n + 1)]
+    codes = {s['name']: 0 for s in steps}
+    sc = {'kind': kind, 'steps': steps, 'codes': codes, 'kill': None, 'notee': None, 'skip': []}
+    if rng.random() < 0.3:
+        sc['skip'] = [steps[0]['name']]
+    if kind == 'seq-failure':
+        codes[steps[rng.randrange(n)]['name']] = rng.choice([1, 2, 124, 255])
+    elif kind == 'parallel-failure':
+        steps[0]['parallel'] = steps[1]['parallel'] = True
+        codes[steps[0]['name']] = rng.choice([1, 3])
+        sc['skip'] = []
+    elif kind == 'killed-in-flight':
+        sc['kill'] = steps[rng.randrange(n)]['name']
+    elif kind == 'killed-before-tee':
+        sc['notee'] = steps[rng.randrange(1, n)]['name']
+    elif kind == 'killed-before-tee-after-failure':
+        steps[0]['parallel'] = steps[1]['parallel'] = True
+        codes[steps[0]['name']] = rng.choice([1, 3])
+        if n == 2:
+            steps.append({'name': 's3', 'parallel': False})
+            codes['s3'] = 0
+        sc['notee'] = steps[2]['name']
+        sc['skip'] = []
+    return sc
+
+
+def e2e_one(ctx, impl, sc, root_work):
+    """runs the real canvas script on probe steps, kills it where the scenario says, returns what it left behind:
+    (case-like dict for the fixture tokens, work dir, Canvas)"""
+    work = tempfile.mkdtemp(dir=root_work)
+    cv = orch_env.Canvas(ctx, impl, work, sc['steps'], skip=sc['skip'], ncpu=2)
+    env = cv.env()
+    if sc['notee']:
+        # a tee that is never scheduled for the log of one step: the window between the in-flight record of step_exec_job
+        # and tee's open(2) stays open until the invocation is killed (same device as tools/regresslog/latetee)
+        bindir = os.path.join(work, 'bin')
+        os.makedirs(bindir)
+        i = [s['name'] for s in sc['steps']].index(sc['notee']) + 1
+        open(os.path.join(bindir, 'tee'), 'w').write('#!/bin/sh\ncase "$1" in */%03d-%s.log) exec sleep 100000;; esac\nexec /usr/bin/tee "$@"\n' % (i, sc['notee']))
+        os.chmod(os.path.join(bindir, 'tee'), 0o755)
+        env['PATH'] = bindir + ':' + env['PATH']
+    proc = subprocess.Popen(['bash', os.path.join(impl, 'canvas'), '-C', cv.conf, '-d'], env=env, cwd=work,
+                            stdout=subprocess.PIPE, stderr=subprocess.STDOUT, start_new_session=True)
+    stop_at = sc['kill'] or sc['notee']
+    names = [s['name'] for s in sc['steps']]
+    try:
+        deadline = time.time() + 25
+        opened = set()
+        while time.time() < deadline and proc.poll() is None:
+            started = [t[1] for t in cv.trace() if t[0] == 'start']
+            bds = cv.builddirs()
+            rows = cv.rows(bds[0]) if bds else []
+            if sc['notee'] and any(r['name'] == sc['notee'] and r['exit'] == '-1' for r in rows):
+                time.sleep(0.05)
+                break
+            for nm in started:
+                if nm == sc['kill']:
+                    continue
+                if nm not in opened:
+                    cv.open_gate(nm, sc['codes'][nm])
+                    opened.add(nm)
+            if sc['kill'] and sc['kill'] in started:
+                time.sleep(0.05)
+                break
+            time.sleep(0.005)
+        killed = False
+        if proc.poll() is None:
+            cv.kill_all(proc)
+            killed = True
+    finally:
+        cv.reap_strays()
+        if proc.poll() is None:
+            cv.kill_all(proc)
+    bds = cv.builddirs()
+    if not bds:
+        return None
+    bd = bds[0]
+    # the lock of a killed invocation is still there; a finished one released it after making its report: put it back, the
+    # report is made while the lock is held
+    lock = os.path.join(cv.root, '.running')
+    if not os.path.exists(lock):
+        open(lock, 'w').write(bd + '\n')
+    rows = []
+    for r in cv.rows(bd):
+        rows.append({'step': int(r['step']), 'name': r['name'], 'exit': int(r['exit']), 'duration': int(r['duration']), 'delta': int(r['delta']),
+                     'log': r['log'], 'user': r['user'], 'time': int(r['time']), 'skip': int(r['skip'])})
+    logs = {}
+    for r in rows:
+        if r['log']:
+            p = os.path.join(bd, r['log'])
+            logs[r['log']] = open(p, 'rb').read().hex() if os.path.isfile(p) else None
+    case = {'mode': 'canvas', 'rows': rows, 'logs': logs, 'tmp': {n: None for n in rp_common.CVS_TMP}, 'comment': None, 'tags': None, 'target': None,
+            'regress': [], 'running': True, 'step_present': True, 'builddir': os.path.basename(bd), 'others': [], 'rel': None, 'prevrel': {},
+            'created': [os.path.basename(bd)], 'e2e': dict(sc, killed=killed)}
+    return case, work, cv
+
+
+def e2e_lane(ctx, impl, drv, res, n):
+    """C05 on step files and logs the real orchestrator wrote: canvas with probe steps, completed / failed / killed in flight / killed
+    between the in-flight record and tee's open; then the real robsd-report on the directory, the model on the same files, the oracle"""
+    import glob
+    scs = [json.load(open(p)) for p in sorted(glob.glob(os.path.join(common.VERIF, 'corpus', 'C05', 'e2e-*.json')))]
+    scs += [gen_e2e(ctx.rng, kind=k) for k in E2E_SCENARIOS] + [gen_e2e(ctx.rng) for _ in range(max(0, n - len(E2E_SCENARIOS)))]
+    root_work = ctx.mkscratch('c05e2e')
+    host, machine = rp_common.hostname(), rp_common.machine_of(impl)
+    with ThreadPoolExecutor(6) as ex:
+        obs = list(ex.map(lambda sc: e2e_one(ctx, impl, sc, root_work), scs))
+    qs, kept = [], []
+    for sc, ob in zip(scs, obs):
+        res.count('e2e scenario=%s' % sc['kind'])
+        if ob is None:
+            res.tie_errors.append('end-to-end lane: canvas left no build directory for scenario %s' % json.dumps(sc)[:300])
+            continue
+        case, work, cv = ob
+        toks = rp_common.fixture_tokens(case, work, host, machine, root=cv.root, canvas_name=b't')
+        r = subprocess.run([os.path.join(impl, 'robsd-report'), '-m', 'canvas', '-C', cv.conf, os.path.join(cv.root, case['builddir'])],
+                           stdout=subprocess.PIPE, stderr=subprocess.PIPE, timeout=30)
+        rep = rp_common.parse_report(r.stdout) if r.returncode == 0 else None
+        qs.append('report ' + ' '.join(toks))
+        qs.append(rp_common.oracle_line(toks, r.returncode, r.stdout, rep, True, None))
+        kept.append((sc, case, r, rep))
+    ans = common.run_driver(drv, qs, timeout=600) if qs else []
+    for i, (sc, case, r, rep) in enumerate(kept):
+        model, verdict = ans[2 * i], ans[2 * i + 1]
+        res.evaluations += 1
+        impl_s = '%d %s' % (r.returncode, common.hexs(r.stdout))
+        if model != impl_s:
+            res.disagreements.append({'case': case, 'what': 'robsd-report on a directory the orchestrator wrote', 'model': model[:400], 'impl': impl_s[:400],
+                                      'stderr': r.stderr[-200:].decode('latin1')})
+        if any(x['exit'] == -1 for x in case['rows']):
+            res.count('e2e: in-flight record in the step file')
+        if rp_common.d24_shape(case):
+            res.count('e2e: in-flight record whose log tee never created')
+        elif sc['notee']:
+            res.tie_errors.append('end-to-end lane: scenario %s did not leave a row whose log is missing' % sc['kind'])
+        rp_common.judge('C05', res, case, verdict, r.returncode, r.stdout, r.stderr, rep)
+        if r.returncode == 0 and rep is not None and (rep['sections'] or rep['status'] != b'ok'):
+            res.nontrivial.add(rp_common.case_key({k: v for k, v in case.items() if k != 'e2e'}))
+    shutil.rmtree(root_work, ignore_errors=True)
+
+
 def run(ctx, n=None):
     res = common.Result()
     res.rule = ('build directories generated per mode from the case splits of the proofs: failure position none/first/middle/last/several, '
                 'exit in {-1,1,2,124,127,255,beyond int}, skipped rows before and after, end row present/absent, in-flight -1 rows, missing/empty/1/9/10/11/many-line '
-                'logs, no final newline, trace-only, blank lines at either end, NUL and CR bytes, regress markers and outcome keywords, cvs logs present/empty/'
-                'missing, comment/tags/target variants, missing lock file or step file; non-trivial = a report was produced with at least one section or '
-                'a non-ok status; distinct by content hash of the case')
+                'logs up to 1 MiB, no final newline, trace-only, blank lines at either end, NUL and CR bytes, regress markers and outcome keywords, suite names that '
+                'are prefixes of one another, more than 17 rows, cvs logs present/empty/missing/a directory, comment/tags/target variants, missing lock file or step '
+                'file; plus build directories written by the real canvas script (completed, failed, killed in flight, killed between the in-flight record and '
+                'tee\'s open); non-trivial = a report was produced with at least one section or a non-ok status; distinct by content hash of the case')
     n = n or ctx.budget(450, 12000)
     cases = rp_common.load_corpus('C05') + [rp_common.gen_case(ctx.rng) for _ in range(n)]
     res.samples = [{'mode': c['mode'], 'rows': c['rows'][:3]} for c in cases[:3]]
-    res.assumptions = ['bytes 0..255; up to 17 rows and logs up to ~14 kB in the correspondence (the theorems have no bound)']
+    res.assumptions = ['bytes 0..255; up to ~90 rows and logs up to 1 MiB in the correspondence (the theorems have no bound)']
     run_cases(ctx, cases, res)
+    ctx.shims_used = orch_env.SHIMS_USED
+    e2e_lane(ctx, ctx.build_impl(), rp_common.build_rp_driver(ctx), res, ctx.budget(12, 120))
     res.traces_validated = res.evaluations
     return res
 
@@ -116,4 +281,9 @@ def extended_search(ctx, res, proof):
 
 
 def replay(ctx, rep):
+    case = rep.get('case') or {}
+    if isinstance(case, dict) and case.get('e2e'):
+        # a case of the end-to-end lane: the directory the orchestrator left is in the case (rows, logs); replay it as a fixture
+        case = {k: v for k, v in case.items() if k != 'e2e'}
+        rep = dict(rep, case=case)
     return rp_common.replay(ctx, 'C05', rep)
